@@ -36,7 +36,11 @@ META = {
                      'byte-exact recomputation of real result files (tools/lib/mc_driver.py, mcharness.py, tools/props/C14.py: unverified Python)'],
     'modelled': ['MC_GeoPHIRES3.work_package (get_output, row assembly)', 'MC_GeoPHIRES3.main (header, row parsing, statistics, JSON)',
                  'numpy nanmin/nanmax/nanmedian/average/nanmean/nanstd (axis 0) over exact rationals', 'Python str.strip/split/partition/replace'],
-    'assumptions': ['names and values of sampled inputs contain neither a new line nor ", " (true of every settings file: lines are split on commas)',
+    'assumptions': ['a row is handed to the file object by one fd.write(result_s) followed by fd.flush(): TextIOWrapper and BufferedWriter pass it '
+                    'to the raw file as one write() whatever its length (shorter than the buffer: at flush; longer: directly), so only the '
+                    'operating system could split it (partial write); observed on every run: exactly one complete raw write() per row, and '
+                    'the largest row is recorded next to the buffer size (evidence: row-writes); C14_row_length_bound bounds a row by its tokens',
+                    'names and values of sampled inputs contain neither a new line nor ", " (true of every settings file: lines are split on commas)',
                     'a row is written by one write() on an O_APPEND descriptor (atomic)',
                     'pylocker mutual exclusion is NOT assumed (C13_row_count_partial); rows lost by the lock time-out are reported under C13'],
     'fingerprint': [('src/geophires_monte_carlo/MC_GeoPHIRES3.py', 'work_package'), ('src/geophires_monte_carlo/MC_GeoPHIRES3.py', 'main')],
@@ -93,7 +97,17 @@ def analyse(ctx, run, bools, reports):
     # --- every successful work package left one well-formed row, nothing else is in the row area
     found_all = None
     if any(t['trace'] for t in run.ok_tasks):
-        _, foreign, missing = mc.match_rows(run, rows)
+        pairs, foreign, missing = mc.match_rows(run, rows)
+        # the atomic-append premise of C14_interleave: each row reaches the raw file as ONE complete write() of exactly the row
+        nbytes = [len((r['line'] + chr(10)).encode('utf-8')) for r, _ in pairs]
+        for (r, t), n in zip(pairs, nbytes):
+            if t.get('writes') and t['writes'] != [[n, n]]:
+                ctx.violate('corr', 'append:not-single-write', f'a row of {n} bytes reached the result file as write() calls {t["writes"]} '
+                            '(asked, written): appends are not atomic, C14_interleave does not apply', inp=_inp(run, row=r['line']),
+                            expected=[[n, n]], observed=t['writes'])
+        if nbytes:
+            ctx.count('row-writes', evaluations=len(nbytes), max_row_bytes={max(nbytes): 1},
+                      file_buffer_bytes={(pairs[0][1].get('blksize') or 0): 1})
         for r in foreign[:2]:
             ctx.violate('property', 'rows:foreign', 'a row of the result file carries sampled values no successful iteration drew '
                         '(torn, interleaved or written by a failed iteration)', inp=_inp(run), observed=r['line'][:300])
@@ -202,6 +216,9 @@ def specs(ctx):
            dict(name='serial', W=1, st=mc.make_settings(rnd, 8 if q else 60)),
            dict(name='failing', W=4, st=mc.make_settings(rnd, 24 if q else 200, inputs=failing, n_outputs=3)),
            dict(name='geophires', W=3, st=geo_st + f'ITERATIONS, {5 if q else 24}\n', program='GEOPHIRES', base=geo)]
+    # a row longer than the buffer of the result-file object (st_blksize, 4096): 160 sampled inputs the simulator ignores
+    many = [(f'Verif Unused {k:03d}', 'uniform', [k, k + 1]) for k in range(160)]
+    out.append(dict(name='longrow', W=4, st=mc.make_settings(rnd, 6 if q else 40, inputs=many, n_outputs=2)))
     if not q:
         out += [dict(name=f'extra{k}', W=rnd.choice([2, 3, 8, 16]), st=mc.make_settings(rnd, rnd.choice([25, 80]))) for k in range(8)]
         out += [dict(name='geophires2', W=4, st=geo2_st + 'ITERATIONS, 12\n', program='GEOPHIRES', base=geo2)]
